@@ -19,7 +19,17 @@
                        DOES produce: repr(node)+itoa(i) is ambiguous, "a"+"10" = "a1"+"0") the
                        Bug*.cfg configs document three counterexamples.
    Variant = "fixed" : Remove only drops a key whose bucket really held the node; a shared
-                       bucket is resolved by highest-random-weight.  Holds for every placement. *)
+                       bucket is resolved by highest-random-weight.  Holds for every placement.
+
+   Node identity.  The property speaks about NODES (values: strings, numbers, Stringers); the
+   code identifies a node by its representation lang.Repr(node): the `nodes` set, the names of
+   the virtual nodes repr+itoa(i) and the comparison in removeRingNode all go through it.
+   ReprOf : node |-> representation models that function (RingRepr.tla is its model over typed
+   numbers and texts).  ReprOf = ReprId (injective: distinct nodes, distinct representations)
+   is what the property needs; RingImplBugRepr.cfg (ReprOf = ReprTwin: two DISTINCT nodes
+   formatted alike, e.g. uint64(2^64-7) and int64(-7) by an unsigned-through-signed
+   conversion) documents what a non-injective representation does to the ring: the later Add
+   evicts the twin (order dependence) and Remove of the one removes the other.             *)
 EXTENDS RingPlace, Json
 
 CONSTANTS Nodes,      \* 1..N
@@ -35,7 +45,8 @@ CONSTANTS Nodes,      \* 1..N
           Reps,       \* replica counts tried by AddWithReplicas (0..Cap+1 = none .. over the cap)
           Weights,    \* weights tried by AddWithWeight
           MaxOps,     \* bound on the history (generation only; 0 = unbounded)
-          Emit
+          Emit,
+          ReprOf      \* node |-> the representation the ring knows it by (cfg: ReprOf <- ReprId | ReprTwin)
 
 VARIABLES
   vh, kh, ih, sc,       \* the placement (constant along a behaviour)
@@ -49,6 +60,10 @@ ivars == <<keys, ring, nodes>>
 vars == <<vh, kh, ih, sc, keys, ring, nodes, mem, ok, hist>>
 
 K == 1     \* the probe key
+
+ReprId   == [n \in Nodes |-> n]                              \* lang.Repr is injective on the nodes
+ReprTwin == [n \in Nodes |-> IF n = 2 THEN 1 ELSE n]         \* nodes 1 and 2 are formatted alike
+R(n) == ReprOf[n]
 
 \* ------------------------------------------------------------------ helpers
 RemoveAt(s, j) == SubSeq(s, 1, j - 1) \o SubSeq(s, j + 1, Len(s))
@@ -64,14 +79,14 @@ RemStepOrig(ks, rg, n, h) ==
   LET idx == FirstIdx(ks, h)
       ks2 == IF idx <= Len(ks) /\ ks[idx] = h THEN RemoveAt(ks, idx) ELSE ks     \* whoever owns it
       rg2 == IF h \in DOMAIN rg
-               THEN LET b == SelectSeq(rg[h], LAMBDA x : x # n) IN
+               THEN LET b == SelectSeq(rg[h], LAMBDA x : R(x) # R(n)) IN
                       IF Len(b) > 0 THEN [rg EXCEPT ![h] = b] ELSE Restrict(rg, DOMAIN rg \ {h})
                ELSE rg
   IN <<ks2, rg2>>
 
 RemStepFixed(ks, rg, n, h) ==
-  IF h \in DOMAIN rg /\ n \in Range(rg[h])
-    THEN LET b == RemoveAt(rg[h], FirstOcc(rg[h], n))
+  IF h \in DOMAIN rg /\ R(n) \in {R(x) : x \in Range(rg[h])}
+    THEN LET b == RemoveAt(rg[h], SetMin({j \in 1..Len(rg[h]) : R(rg[h][j]) = R(n)}))     \* repr(x) == nodeRepr
              idx == FirstIdx(ks, h)
          IN << IF idx <= Len(ks) /\ ks[idx] = h THEN RemoveAt(ks, idx) ELSE ks,
                IF Len(b) > 0 THEN [rg EXCEPT ![h] = b] ELSE Restrict(rg, DOMAIN rg \ {h}) >>
@@ -80,27 +95,27 @@ RemStepFixed(ks, rg, n, h) ==
 RECURSIVE RemLoop(_, _, _, _)
 RemLoop(ks, rg, n, i) ==
   IF i > Cap THEN <<ks, rg>>
-  ELSE LET s == IF Variant = "orig" THEN RemStepOrig(ks, rg, n, vh[n][i])
-                                    ELSE RemStepFixed(ks, rg, n, vh[n][i])
+  ELSE LET s == IF Variant = "orig" THEN RemStepOrig(ks, rg, n, vh[R(n)][i])
+                                    ELSE RemStepFixed(ks, rg, n, vh[R(n)][i])
        IN RemLoop(s[1], s[2], n, i + 1)
 
 \* state after h.Remove(n): <<keys, ring, nodes>>
 Removed(ks, rg, ns, n) ==
-  IF n \notin ns THEN <<ks, rg, ns>>
-  ELSE LET s == RemLoop(ks, rg, n, 1) IN <<s[1], s[2], ns \ {n}>>
+  IF R(n) \notin ns THEN <<ks, rg, ns>>                                  \* containsNode(nodeRepr)
+  ELSE LET s == RemLoop(ks, rg, n, 1) IN <<s[1], s[2], ns \ {R(n)}>>
 
 \* ------------------------------------------------------------------ AddWithReplicas
 RECURSIVE AddLoop(_, _, _, _, _)
 AddLoop(ks, rg, n, i, r) ==
   IF i > r THEN <<ks, rg>>
-  ELSE LET h == vh[n][i] IN
+  ELSE LET h == vh[R(n)][i] IN                                           \* hash(nodeRepr + itoa(i))
        AddLoop(Append(ks, h), PutF(rg, h, IF h \in DOMAIN rg THEN Append(rg[h], n) ELSE <<n>>), n, i + 1, r)
 
 Added(ks, rg, ns, n, replicas) ==
   LET s0 == Removed(ks, rg, ns, n)
       r  == IF replicas > Cap THEN Cap ELSE replicas
       s1 == AddLoop(s0[1], s0[2], n, 1, r)
-  IN <<SortSeq(s1[1], <), s1[2], s0[3] \cup {n}>>
+  IN <<SortSeq(s1[1], <), s1[2], s0[3] \cup {R(n)}>>
 
 \* ------------------------------------------------------------------ Get
 GetOf(ks, rg) ==
